@@ -47,6 +47,7 @@ struct FnC {
     header: String, // requires/ensures text
     loops: BTreeMap<usize, LoopC>,
     closures: BTreeMap<usize, String>,
+    closure_like: BTreeMap<usize, String>, // ordinal (>= 1000) -> normalised prefix of the closure BODY the contract belongs to
     anchors: Vec<Anchor>,
     attrs: Vec<String>, // extra verifier attributes, e.g. rlimit(60)
     used: bool,
@@ -123,6 +124,19 @@ fn parse_contracts(dir: &str, config: &str) -> Contracts {
                 }
                 c.fns.get_mut(&k).unwrap().loops.insert(ord, lc);
                 sec = Sec::Loop(k, ord);
+            } else if t.starts_with("@closure-like ") {
+                // a closure contract attached by CONTENT: `@closure-like "<normalised prefix of the closure body>"`; optional
+                // (no LOST-CLOSURE when nothing matches), used for the plausible rewrites of a closure-heavy function
+                let k = match &sec {
+                    Sec::FnHeader(k) | Sec::Loop(k, _) | Sec::Anchor(k, _) | Sec::Closure(k, _) => k.clone(),
+                    _ => panic!("{fname}: @closure-like outside @fn"),
+                };
+                let pre = norm(t["@closure-like ".len()..].trim().trim_matches('"'));
+                let f = c.fns.get_mut(&k).unwrap();
+                let ord = 1000 + f.closure_like.len();
+                f.closure_like.insert(ord, pre);
+                f.closures.insert(ord, String::new());
+                sec = Sec::Closure(k, ord);
             } else if t.starts_with("@closure ") {
                 let k = match &sec {
                     Sec::FnHeader(k) | Sec::Loop(k, _) | Sec::Anchor(k, _) | Sec::Closure(k, _) => k.clone(),
@@ -1049,7 +1063,7 @@ impl<'a> Planter<'a> {
         if has_body {
             let mut sc = ShapeCollector { calls: BTreeSet::new(), closures: 0 };
             sc.visit_block_mut(block);
-            let nh = self.c.fns.get(key).map(|f| f.closures.len()).unwrap_or(0);
+            let nh = self.c.fns.get(key).map(|f| f.closures.keys().filter(|o| **o < 1000).count()).unwrap_or(0);
             self.shapes.push((key.to_string(), sc.calls.iter().cloned().collect(), sc.closures, nh));
         }
         let fc = match self.c.fns.get_mut(key) {
@@ -1190,7 +1204,7 @@ impl<'a> Planter<'a> {
                 struct CP<'b> {
                     ord: usize,
                     fc: &'b FnC,
-                    found: Vec<(usize, String)>,
+                    found: Vec<(usize, String, String)>,
                 }
                 impl<'b> VisitMut for CP<'b> {
                     fn visit_expr_mut(&mut self, e: &mut Expr) {
@@ -1199,10 +1213,18 @@ impl<'a> Planter<'a> {
                             self.ord += 1;
                             // visit nested closures inside the body first (they get later ordinals)
                             visit_mut::visit_expr_mut(self, &mut c.body);
-                            if let Some(t) = self.fc.closures.get(&ord) {
+                            let body_txt = norm(&c.body.to_token_stream().to_string());
+                            let like = self.fc.closure_like.iter().find(|(_, pre)| body_txt.starts_with(pre.as_str())).map(|(o, _)| *o);
+                            let use_ord = match like {
+                                Some(o) => Some(o),
+                                None => if self.fc.closures.contains_key(&ord) && ord < 1000 { Some(ord) } else { None },
+                            };
+                            if let Some(uo) = use_ord {
+                                let t = self.fc.closures.get(&uo).unwrap();
                                 let body = c.body.clone();
-                                let ph = format_ident!("VPC{}", ord);
-                                self.found.push((ord, t.clone()));
+                                // a content-matched contract may serve several closures: give each use its own placeholder
+                                let ph = format_ident!("VPC{}x{}", uo, self.found.len());
+                                self.found.push((uo, t.clone(), ph.to_string()));
                                 *e = parse_quote!(vp_closure!(#ph, { #body }));
                             }
                             return;
@@ -1214,13 +1236,19 @@ impl<'a> Planter<'a> {
                 cp.visit_block_mut(block);
                 let found = cp.found.clone();
                 for (ord, _t) in &fc.closures {
-                    if !found.iter().any(|(o, _)| o == ord) {
+                    // an ordinal contract whose closure also matches a content contract is not lost
+                    if *ord < 1000 && !found.iter().any(|(o, _, _)| o == ord) && found.len() < fc.closures.iter().filter(|(o, _)| **o < 1000).count() {
                         self.lost.push(format!("LOST-CLOSURE {} closure#{}", key, ord));
                     }
                 }
-                for (ord, t) in found {
+                if let Some(last) = self.shapes.last_mut() {
+                    if last.0 == key {
+                        last.3 = found.len();
+                    }
+                }
+                for (_ord, t, ph) in found {
                     let gid = self.marker(t);
-                    replace_macro_ident(block, "vp_closure", &format!("VPC{}", ord), gid);
+                    replace_macro_ident(block, "vp_closure", &ph, gid);
                 }
             }
         }
@@ -1240,19 +1268,25 @@ fn replace_macro_ident(block: &mut Block, mac: &str, placeholder: &str, gid: usi
         ph: &'a str,
         gid: usize,
     }
+    // the placeholder is unique, and a nested closure sits inside the (opaque) tokens of the outer macro call: replace it
+    // wherever it occurs in the token tree
+    fn subst(ts: TokenStream, ph: &str, gid: usize) -> TokenStream {
+        ts.into_iter()
+            .map(|tt| match tt {
+                proc_macro2::TokenTree::Ident(ref id) if id == ph => proc_macro2::TokenTree::Literal(proc_macro2::Literal::usize_unsuffixed(gid)),
+                proc_macro2::TokenTree::Group(g) => {
+                    let mut ng = proc_macro2::Group::new(g.delimiter(), subst(g.stream(), ph, gid));
+                    ng.set_span(g.span());
+                    proc_macro2::TokenTree::Group(ng)
+                }
+                other => other,
+            })
+            .collect()
+    }
     impl<'a> VisitMut for R<'a> {
         fn visit_macro_mut(&mut self, m: &mut Macro) {
             if m.path.is_ident(self.mac) {
-                let mut it = m.tokens.clone().into_iter();
-                if let Some(proc_macro2::TokenTree::Ident(id)) = it.next() {
-                    if id == self.ph {
-                        let rest: TokenStream = it.collect();
-                        let g = proc_macro2::Literal::usize_unsuffixed(self.gid);
-                        m.tokens = quote!(#g #rest);
-                        return;
-                    }
-                }
-                // nested closures inside the body tokens: re-parse is not needed, bodies are opaque tokens here
+                m.tokens = subst(m.tokens.clone(), self.ph, self.gid);
             }
         }
     }
